@@ -1,7 +1,7 @@
 (* C05 property theorems: statements only; every proof is [exact lemma]. *)
 From Gv Require Import lib.Bytes lib.Gql C05.Lex C05.Parse C05.Limits C05.Print C05.Spec C05.Tokens
   C05.ProofsLex C05.ProofsLimits C05.ProofsParse C05.ProofsMisc C05.ProofsTotal C05.ProofsRoundtrip C05.ProofsWf
-  C05.ProofsFinal gen.Anchors_C05.
+  C05.ProofsFinal C05.ProofsInline gen.Anchors_C05.
 From Coq Require Import ZArith.
 
 (* the model uses the rune / keyword / identifier-keyword tables of the Go source, and the source has the repair *)
@@ -28,28 +28,65 @@ Theorem c05_tokens_ordered : forall b ts, (len b < two32)%N -> tokenize b = Some
 Proof. exact tokens_ordered_proof. Qed.
 Print Assumptions c05_tokens_ordered.
 
-(* ---- limits, for all token streams that parse (repaired accounting) ---- *)
+(* ---- limits, for all token streams that parse ----
+   [lim_run fx cm]: fx = the repair of the keyword reset, cm = the repair of the shorthand operation;
+   the Go code is (true, true).  The limits are read cumulatively: MaxDepth bounds the SUM of the
+   selection depths of all definitions (hence the depth of every operation with its fragments spread),
+   MaxFields bounds the number of fields of the whole document. *)
 Theorem c05_limits_sound : forall L F ts d r,
-  parse (strip ts) = Ok d r -> exceeds L F d -> fst (fst (lim_run true L F ts linit)) <> LOk.
+  parse (strip ts) = Ok d r -> exceeds_cum L F d -> fst (fst (lim_run true true L F ts linit)) <> LOk.
 Proof. exact limits_sound_proof. Qed.
 Print Assumptions c05_limits_sound.
 
-(* depth half: holds for the repaired and for the historical accounting *)
-Theorem c05_limits_depth_sound : forall fx L F ts d r,
-  parse (strip ts) = Ok d r -> (0 < L)%Z -> (L < doc_depth d)%Z -> fst (fst (lim_run fx L F ts linit)) <> LOk.
+Theorem c05_limits_cumulative_depth_sound : forall L F ts d r,
+  parse (strip ts) = Ok d r -> (0 < L)%Z -> fst (fst (lim_run true true L F ts linit)) = LOk ->
+  (depth_sum d <= L)%Z.
+Proof. exact limits_cumulative_depth_le_proof. Qed.
+Print Assumptions c05_limits_cumulative_depth_sound.
+
+(* the inlined depth (fragments counted where they are spread; a fragment is expanded at most once per
+   path, so cycles are cut) never exceeds the cumulative depth ... *)
+Theorem c05_depth_inlined_le_sum : forall d o, In (DOp o) d -> (depth_inlined d o <= depth_sum d)%Z.
+Proof. exact depth_inlined_le_sum_proof. Qed.
+Print Assumptions c05_depth_inlined_le_sum.
+
+(* ... hence an accepted document has every operation within the limit *)
+Theorem c05_limits_inlined_depth_sound : forall L F ts d r o,
+  parse (strip ts) = Ok d r -> (0 < L)%Z -> fst (fst (lim_run true true L F ts linit)) = LOk ->
+  In (DOp o) d -> (depth_inlined d o <= L)%Z.
+Proof. exact limits_inlined_depth_sound_proof. Qed.
+Print Assumptions c05_limits_inlined_depth_sound.
+
+(* the field limit is for the whole document (all operations and fragments together) *)
+Theorem c05_limits_fields_sound : forall cm L F ts d r,
+  parse (strip ts) = Ok d r -> (0 < F)%Z -> (F < doc_fields d)%Z -> fst (fst (lim_run true cm L F ts linit)) <> LOk.
+Proof. exact limits_fields_sound_proof. Qed.
+Print Assumptions c05_limits_fields_sound.
+
+(* per-definition depth: holds for every version of the accounting *)
+Theorem c05_limits_depth_sound : forall fx cm L F ts d r,
+  parse (strip ts) = Ok d r -> (0 < L)%Z -> (L < doc_depth d)%Z -> fst (fst (lim_run fx cm L F ts linit)) <> LOk.
 Proof. exact limits_depth_sound_proof. Qed.
 Print Assumptions c05_limits_depth_sound.
 
-(* historical (pre-repair) accounting: the field limit was bypassable *)
+(* historical accounting before the first repair: the field limit was bypassable *)
 Theorem c05_limits_fields_refuted :
   exists b d, parse_bytes b = Ok d [] /\ exceeds 0 3 d /\ doc_fields d = 8%Z /\
-              tokenize_limits false 0 3 b = Some (LOk, 1%Z, 2%Z).
+              tokenize_limits false false 0 3 b = Some (LOk, 1%Z, 2%Z).
 Proof. exact limits_fields_refuted_proof. Qed.
 Print Assumptions c05_limits_fields_refuted.
 
+(* historical accounting before the second repair: a shorthand operation after a fragment was compared with
+   it instead of added -- cumulative depth 4, inlined depth 3, accepted with MaxDepth 2 *)
+Theorem c05_limits_cumulative_depth_refuted :
+  exists b d, parse_bytes b = Ok d [] /\ depth_sum d = 4%Z /\ max_depth_inlined d d = 3%Z /\
+              tokenize_limits true false 2 0 b = Some (LOk, 2%Z, 3%Z).
+Proof. exact limits_cumulative_depth_refuted_proof. Qed.
+Print Assumptions c05_limits_cumulative_depth_refuted.
+
 (* the same, on bytes: what ParseWithLimits does with a document that parses *)
 Theorem c05_limits_sound_bytes : forall L F b d r v dp fl,
-  parse_bytes b = Ok d r -> exceeds L F d -> tokenize_limits true L F b = Some (v, dp, fl) -> v <> LOk.
+  parse_bytes b = Ok d r -> exceeds_cum L F d -> tokenize_limits true true L F b = Some (v, dp, fl) -> v <> LOk.
 Proof. exact limits_sound_bytes_proof. Qed.
 Print Assumptions c05_limits_sound_bytes.
 
